@@ -484,6 +484,25 @@ func init() {
 		}
 		return Tuple{val, smt.True, smt.Bool(esc)}
 	}
+	// vPostedDocumentSigned(b64): the posted document (base64 of a serialisation) contains a ds:Signature child of the root
+	intrinsics["vPostedDocumentSigned"] = func(in *Interp, fn *ssa.Function, a []Value) Value {
+		t := termArg(in, a[0])
+		// t = b64e_std(ser_x): find the bound document
+		if t.Op == "b64e_std" && len(t.Args) == 1 {
+			if d := in.lookupDoc(t.Args[0]); d != nil && d.Root != nil {
+				for _, c := range in.viewElem(d.Root).Children {
+					if c.Kind == "elem" {
+						if ce := in.viewElem(c.Elem); ce.Tag.Const && ce.Tag.Str == "Signature" {
+							return smt.True
+						}
+					}
+				}
+				return smt.False
+			}
+		}
+		in.end("unmodelled", "vPostedDocumentSigned: not a base64 of a known serialisation: %s", t.S)
+		return nil
+	}
 	intrinsics["vFormCount"] = func(in *Interp, fn *ssa.Function, a []Value) Value {
 		out := in.stringOfBytes(a[0].(*SliceV))
 		segs, ok := in.Ghost["tmplout:"+out.S].([]tmplSeg)
